@@ -431,7 +431,7 @@ REGISTRY = {
     "C09": Spec("FFSM2.Props.C09", ["ids", "config"], machine_run("C09", ("random", "planveto", "reactivate"))),
     "C11": Spec("FFSM2.Props.C11", ["ids"], machine_run("C11", ("random", "replica"))),
     "C12": Spec("FFSM2.Props.C12", ["ids", "serial", "bitwidth", "contain", "typebits", "buffers"], c12_run),
-    "C16": Spec("FFSM2.Props.C16", ["ids"], machine_run("C16")),
+    "C16": Spec("FFSM2.Props.C16", ["ids"], machine_run("C16"), extra=("FFSM2.Props.History",)),
     "C17": Spec("FFSM2.Props.C17", ["ids"], machine_run("C17", ("random", "reactivate")), extra=("FFSM2.Props.History",)),
 }
 
